@@ -6,15 +6,11 @@ package main
 import (
 	"bytes"
 	"fmt"
-	"go/ast"
-	"go/constant"
 	"go/format"
-	"go/parser"
-	"go/token"
 	"path/filepath"
 	"regexp"
+	"sort"
 	"strings"
-	"text/template"
 )
 
 func ruleR34(c *Ctx) {
@@ -33,155 +29,94 @@ func ruleR34(c *Ctx) {
 			}
 		}
 	}
-	runsGen, fmtsOut := false, false
-	outName := ""
+	runsGen := false
+	fmtFiles := map[string]bool{}
 	for _, d := range directives {
 		if strings.Contains(d, "go run") && strings.Contains(d, "cmd/go-art") {
 			runsGen = true
 		}
 		if m := regexp.MustCompile(`gofmt\s+-w\s+(\S+)`).FindStringSubmatch(d); m != nil {
-			fmtsOut = true
-			outName = m[1]
+			fmtFiles[m[1]] = true
 		}
 	}
-	if runsGen && fmtsOut {
-		c.r.ok("R34", "go:generate pipeline", genFile, "directives run the generator and gofmt -w "+outName, P)
+	if runsGen {
+		c.r.ok("R34", "go:generate pipeline", genFile, fmt.Sprintf("a directive runs the generator; gofmt -w on %d file(s)", len(fmtFiles)), P)
 	} else {
-		c.r.bad("R34", "go:generate pipeline", "gen.go", fmt.Sprintf("expected a go:generate directive running cmd/go-art and one running gofmt -w on its output; found %q", directives), P)
+		c.r.bad("R34", "go:generate pipeline", "gen.go", fmt.Sprintf("expected a go:generate directive running cmd/go-art; found %q", directives), P)
 	}
-	// (2) generator: table, template name, output name from the AST of main.go
-	fset := token.NewFileSet()
-	mainPath := filepath.Join(genDir, "main.go")
-	msrc, _ := c.L.readFile(mainPath)
-	mf, err := parser.ParseFile(fset, mainPath, msrc, parser.ParseComments)
+	// (2) constant evaluation of the generator (geneval.go): what every output file holds when
+	// main returns
+	rel := func(p string) string {
+		if r, err := filepath.Rel(repoDir, p); err == nil {
+			return r
+		}
+		return p
+	}
+	ev, err := newGenEval(genDir, repoDir, genDirFiles(genDir, c.L.extra), c.L.readFile, rel)
 	if err != nil {
 		c.r.undecided("R34", "generator parses", "cmd/go-art/main.go", err.Error(), P)
 		return
 	}
-	var info = (*ast.File)(mf)
-	_ = info
-	// struct fields of the row type
-	rowFields := map[string]string{} // name → "string"|"bool"
-	var table []map[string]any
-	tmplName, outFile := "", ""
-	bad := ""
-	ast.Inspect(mf, func(n ast.Node) bool {
-		switch x := n.(type) {
-		case *ast.TypeSpec:
-			if st, ok := x.Type.(*ast.StructType); ok {
-				for _, f := range st.Fields.List {
-					tn := ""
-					if id, ok := f.Type.(*ast.Ident); ok {
-						tn = id.Name
-					}
-					for _, nm := range f.Names {
-						rowFields[nm.Name] = tn
-					}
-				}
+	stop := ev.run()
+	if stop == nil {
+		ev.finish()
+	}
+	for _, f := range ev.findings {
+		if f.bad {
+			c.r.bad("R34", f.key, f.pos, f.detail, P)
+		}
+	}
+	if stop != nil {
+		if stop.exit {
+			if len(ev.findings) == 0 {
+				c.r.bad("R34", "generator shape", ev.posStr(stop.pos), stop.reason+": no output is complete", P)
 			}
-		case *ast.CompositeLit:
-			at, ok := x.Type.(*ast.ArrayType)
-			if !ok || at.Len != nil {
+		} else {
+			c.r.undecided("R34", "generator shape", ev.posStr(stop.pos), "the generator leaves the evaluated subset of Go: "+stop.reason, P)
+		}
+		return
+	}
+	has := func(key string) bool {
+		for _, f := range ev.findings {
+			if f.key == key {
 				return true
 			}
-			for _, el := range x.Elts {
-				row, ok := el.(*ast.CompositeLit)
-				if !ok {
-					bad = "table element is not a composite literal"
-					continue
-				}
-				r := map[string]any{}
-				for _, kvE := range row.Elts {
-					kv, ok := kvE.(*ast.KeyValueExpr)
-					if !ok {
-						bad = "table row uses positional fields"
-						continue
-					}
-					key := kv.Key.(*ast.Ident).Name
-					switch v := kv.Value.(type) {
-					case *ast.BasicLit:
-						if v.Kind == token.STRING {
-							r[key] = constant.StringVal(constant.MakeFromLiteral(v.Value, v.Kind, 0))
-						} else {
-							bad = "non-string literal in table"
-						}
-					case *ast.Ident:
-						switch v.Name {
-						case "true":
-							r[key] = true
-						case "false":
-							r[key] = false
-						default:
-							bad = "non-constant value " + v.Name + " in table"
-						}
-					default:
-						bad = fmt.Sprintf("non-constant expression for %s in table", key)
-					}
-				}
-				table = append(table, r)
-			}
-		case *ast.CallExpr:
-			if sel, ok := x.Fun.(*ast.SelectorExpr); ok {
-				switch sel.Sel.Name {
-				case "ParseFS", "ParseFiles":
-					for _, a := range x.Args {
-						if bl, ok := a.(*ast.BasicLit); ok && bl.Kind == token.STRING {
-							tmplName = constant.StringVal(constant.MakeFromLiteral(bl.Value, bl.Kind, 0))
-						}
-					}
-				case "OpenFile", "Create":
-					if len(x.Args) > 0 {
-						if bl, ok := x.Args[0].(*ast.BasicLit); ok && bl.Kind == token.STRING {
-							outFile = constant.StringVal(constant.MakeFromLiteral(bl.Value, bl.Kind, 0))
-						}
-					}
-				}
-			}
 		}
-		return true
-	})
-	if bad != "" || len(table) == 0 || tmplName == "" || outFile == "" {
-		c.r.undecided("R34", "generator shape", "cmd/go-art/main.go",
-			fmt.Sprintf("cannot extract a constant table/template/output from the generator (rows=%d template=%q output=%q %s)", len(table), tmplName, outFile, bad), P)
+		return false
+	}
+	if !has("generator stops on a template error") {
+		c.r.ok("R34", "generator stops on a template error", "cmd/go-art/main.go", fmt.Sprintf("the error of each of the %d template executions ends the program", ev.execs), P)
+	}
+	if !has("generator output reaches the file") {
+		c.r.ok("R34", "generator output reaches the file", "cmd/go-art/main.go", "every byte the templates produce is in an output file when main returns (writers flushed before their file is closed)", P)
+	}
+	var outNames []string
+	for n := range ev.outFiles {
+		outNames = append(outNames, n)
+	}
+	sort.Strings(outNames)
+	if len(outNames) != 1 || ev.execs == 0 {
+		c.r.undecided("R34", "generator shape", "cmd/go-art/main.go", fmt.Sprintf("expected one output file written from a template; the generator writes %v with %d template executions", outNames, ev.execs), P)
 		return
 	}
-	for _, r := range table {
-		for f, t := range rowFields {
-			if _, ok := r[f]; !ok {
-				if t == "bool" {
-					r[f] = false
-				} else {
-					r[f] = ""
-				}
-			}
+	outFile := outNames[0]
+	for f := range fmtFiles {
+		if f != outFile {
+			c.r.bad("R34", "generator output name", "cmd/go-art/main.go", fmt.Sprintf("generator writes %q but go:generate formats %q", outFile, f), P)
 		}
 	}
-	if outName != "" && outName != outFile {
-		c.r.bad("R34", "generator output name", "cmd/go-art/main.go", fmt.Sprintf("generator writes %q but go:generate formats %q", outFile, outName), P)
-	}
-	c.r.ok("R34", "generator shape", "cmd/go-art/main.go", fmt.Sprintf("table of %d constant rows, template %s, output %s", len(table), tmplName, outFile), P)
-	c.generatorOutputPath(fset, mf)
+	raw := ev.outFiles[outFile].buf.Bytes()
+	c.r.ok("R34", "generator shape", "cmd/go-art/main.go", fmt.Sprintf("evaluated: %d template execution(s), output %s (%d bytes before the go:generate formatting step)", ev.execs, outFile, len(raw)), P)
 
-	// (3) render + format + compare
-	tsrc, err := c.L.readFile(filepath.Join(genDir, tmplName))
-	if err != nil {
-		c.r.undecided("R34", "template readable", "cmd/go-art/"+tmplName, err.Error(), P)
-		return
-	}
-	tm, err := template.New(tmplName).Parse(string(tsrc))
-	if err != nil {
-		c.r.bad("R34", "template parses", "cmd/go-art/"+tmplName, err.Error(), P)
-		return
-	}
-	var buf bytes.Buffer
-	if err := tm.Execute(&buf, table); err != nil {
-		c.r.bad("R34", "template executes", "cmd/go-art/"+tmplName, err.Error(), P)
-		return
-	}
-	want, err := format.Source(buf.Bytes())
-	if err != nil {
-		c.r.bad("R34", "rendered template is valid Go", "cmd/go-art/"+tmplName, err.Error(), P)
-		return
+	// (3) the pipeline's result, compared with the checked-in file
+	want := raw
+	if fmtFiles[outFile] {
+		w, err := format.Source(raw)
+		if err != nil {
+			c.r.bad("R34", "rendered template is valid Go", "cmd/go-art/main.go", err.Error(), P)
+			return
+		}
+		want = w
 	}
 	have, err := c.L.readFile(filepath.Join(repoDir, outFile))
 	if err != nil {
@@ -211,7 +146,7 @@ func ruleR34(c *Ctx) {
 	}
 	wc, wn := split(want)
 	hc, hn := split(have)
-	tvPrograms, tvCompared = len(table), 0
+	tvPrograms, tvCompared = len(wc)-1, 0
 	if len(wc) != len(hc) {
 		c.r.bad("R34", "instantiation count", outFile, fmt.Sprintf("generator output has %d instantiations %v, checked-in file has %d %v", len(wc)-1, wn[1:], len(hc)-1, hn[1:]), P)
 	}
@@ -242,209 +177,5 @@ func ruleR34(c *Ctx) {
 		c.r.bad("R34", key, fmt.Sprintf("%s:%d", outFile, off+d+1),
 			fmt.Sprintf("generated code and template disagree in %s (checked-in %s): template renders %q, %s has %q", wn[i], hn[i], w, outFile, h), P)
 	}
-	c.r.floor("R34", 3+len(table), "generator checks", P)
-}
-
-// generatorOutputPath: what Execute writes reaches the output file. In the function that calls
-// tmpl.Execute(w, …): w is the opened file, or a bufio.Writer on it that is flushed after Execute
-// and before the file is closed – explicit statements run in order, deferred calls after them in
-// reverse order of registration; and the error of Execute ends the program (otherwise a template
-// error leaves a truncated file behind exit status 0). A generator that drops the tail of its
-// output makes the checked-in file differ from what the generator produces (C19) although the
-// rendering of the template (this rule's part 3) is unchanged.
-func (c *Ctx) generatorOutputPath(fset *token.FileSet, mf *ast.File) {
-	const P = "C19"
-	pos := func(p token.Pos) string {
-		q := fset.Position(p)
-		return fmt.Sprintf("cmd/go-art/main.go:%d", q.Line)
-	}
-	var fn *ast.FuncDecl
-	var exec *ast.CallExpr
-	for _, d := range mf.Decls {
-		fd, ok := d.(*ast.FuncDecl)
-		if !ok || fd.Body == nil {
-			continue
-		}
-		ast.Inspect(fd.Body, func(n ast.Node) bool {
-			if call, ok := n.(*ast.CallExpr); ok {
-				if sel, ok := call.Fun.(*ast.SelectorExpr); ok && (sel.Sel.Name == "Execute" || sel.Sel.Name == "ExecuteTemplate") && len(call.Args) >= 2 {
-					fn, exec = fd, call
-				}
-			}
-			return true
-		})
-	}
-	if exec == nil {
-		c.r.undecided("R34", "generator output path", "cmd/go-art/main.go", "no call of Execute found", P)
-		return
-	}
-	wID, _ := ast.Unparen(exec.Args[0]).(*ast.Ident)
-	if wID == nil {
-		c.r.undecided("R34", "generator output path", pos(exec.Pos()), "the writer passed to Execute is not a variable", P)
-		return
-	}
-	// definitions: which variable is the file (os.OpenFile / os.Create), which a bufio writer on it
-	fileVar, bufOf := "", map[string]string{}
-	ast.Inspect(fn.Body, func(n ast.Node) bool {
-		as, ok := n.(*ast.AssignStmt)
-		if !ok || len(as.Rhs) != 1 {
-			return true
-		}
-		call, ok := ast.Unparen(as.Rhs[0]).(*ast.CallExpr)
-		if !ok {
-			return true
-		}
-		sel, ok := call.Fun.(*ast.SelectorExpr)
-		if !ok {
-			return true
-		}
-		lhs, _ := as.Lhs[0].(*ast.Ident)
-		if lhs == nil {
-			return true
-		}
-		switch sel.Sel.Name {
-		case "OpenFile", "Create":
-			fileVar = lhs.Name
-		case "NewWriter", "NewWriterSize":
-			if pk, ok := sel.X.(*ast.Ident); ok && pk.Name == "bufio" && len(call.Args) >= 1 {
-				if a, ok := ast.Unparen(call.Args[0]).(*ast.Ident); ok {
-					bufOf[lhs.Name] = a.Name
-				}
-			}
-		}
-		return true
-	})
-	// the error of Execute is fatal
-	errFatal := false
-	var stmts []ast.Stmt = fn.Body.List
-	for i, st := range stmts {
-		holds := false
-		ast.Inspect(st, func(n ast.Node) bool {
-			if n == ast.Node(exec) {
-				holds = true
-			}
-			return true
-		})
-		if !holds {
-			continue
-		}
-		fatalIn := func(b *ast.BlockStmt) bool {
-			f := false
-			ast.Inspect(b, func(n ast.Node) bool {
-				if call, ok := n.(*ast.CallExpr); ok {
-					switch t := call.Fun.(type) {
-					case *ast.Ident:
-						if t.Name == "panic" {
-							f = true
-						}
-					case *ast.SelectorExpr:
-						if strings.HasPrefix(t.Sel.Name, "Fatal") || t.Sel.Name == "Exit" || strings.HasPrefix(t.Sel.Name, "Panic") {
-							f = true
-						}
-					}
-				}
-				return true
-			})
-			return f
-		}
-		if is, ok := st.(*ast.IfStmt); ok && fatalIn(is.Body) { // if err := Execute(); err != nil { fatal }
-			errFatal = true
-		}
-		if i+1 < len(stmts) {
-			if is, ok := stmts[i+1].(*ast.IfStmt); ok && fatalIn(is.Body) {
-				errFatal = true
-			}
-		}
-	}
-	if errFatal {
-		c.r.ok("R34", "generator stops on a template error", pos(exec.Pos()), "the error of Execute ends the program", P)
-	} else {
-		c.r.bad("R34", "generator stops on a template error", pos(exec.Pos()), "the error of Execute is not tested by a branch that ends the program: a failing template leaves a truncated output file and exit status 0", P)
-	}
-	key := "generator output reaches the file"
-	w := wID.Name
-	if w == fileVar && fileVar != "" {
-		c.r.ok("R34", key, pos(exec.Pos()), "Execute writes to the opened file itself", P)
-		return
-	}
-	target, buffered := bufOf[w]
-	if !buffered {
-		c.r.undecided("R34", key, pos(exec.Pos()), "Execute writes to "+w+", which is neither the opened file nor a bufio.Writer on it", P)
-		return
-	}
-	// order of events at the end of the function: explicit statements, then deferred calls in
-	// reverse order of registration
-	type ev struct {
-		what string // "flush" | "close" | "exec"
-		p    token.Pos
-	}
-	var seq, deferred []ev
-	classify := func(call *ast.CallExpr) (string, bool) {
-		if call == exec {
-			return "exec", true
-		}
-		sel, ok := call.Fun.(*ast.SelectorExpr)
-		if !ok {
-			return "", false
-		}
-		x, _ := ast.Unparen(sel.X).(*ast.Ident)
-		if x == nil {
-			return "", false
-		}
-		switch {
-		case sel.Sel.Name == "Flush" && x.Name == w:
-			return "flush", true
-		case sel.Sel.Name == "Close" && x.Name == target:
-			return "close", true
-		}
-		return "", false
-	}
-	for _, st := range stmts {
-		if d, ok := st.(*ast.DeferStmt); ok {
-			var evs []ev
-			ast.Inspect(d.Call, func(n ast.Node) bool {
-				if call, ok := n.(*ast.CallExpr); ok {
-					if k, ok := classify(call); ok {
-						evs = append(evs, ev{k, call.Pos()})
-					}
-				}
-				return true
-			})
-			deferred = append(deferred, evs...)
-			continue
-		}
-		ast.Inspect(st, func(n ast.Node) bool {
-			if call, ok := n.(*ast.CallExpr); ok {
-				if k, ok := classify(call); ok {
-					seq = append(seq, ev{k, call.Pos()})
-				}
-			}
-			return true
-		})
-	}
-	for i := len(deferred) - 1; i >= 0; i-- {
-		seq = append(seq, deferred[i])
-	}
-	state := "" // after exec: waiting for flush
-	for _, e := range seq {
-		switch e.what {
-		case "exec":
-			state = "written"
-		case "flush":
-			if state == "written" {
-				state = "flushed"
-			}
-		case "close":
-			if state == "written" {
-				c.r.bad("R34", key, pos(e.p), fmt.Sprintf("%s.Close() runs before %s.Flush() (deferred calls run after the explicit statements, in reverse order): what is still in the buffer is written to a closed file and the error is lost – the generator exits 0 and the tail of the output is missing", target, w), P)
-				return
-			}
-		}
-	}
-	switch state {
-	case "flushed":
-		c.r.ok("R34", key, pos(exec.Pos()), fmt.Sprintf("%s is a bufio.Writer on %s and is flushed after Execute, before %s is closed", w, target, target), P)
-	default:
-		c.r.bad("R34", key, pos(exec.Pos()), fmt.Sprintf("%s is a bufio.Writer on %s and is never flushed after Execute: the tail of the output stays in the buffer", w, target), P)
-	}
+	c.r.floor("R34", 3+len(wc), "generator checks", P)
 }
